@@ -7,7 +7,7 @@ import itertools
 import numpy as np
 
 from vpkit import SubCheck, fail, ok
-from vpkit.training import make_program, next_batch, reference_loop, tree_close
+from vpkit.training import diverges, make_program, next_batch, reference_loop, tree_close
 
 PROPERTY = "C19"
 LEVEL = "exploration"
@@ -280,7 +280,7 @@ def run_solve_validation(case):
     out = jinns.solve(n_iter=n_iter, init_params=prog["params"], data=prog["data"], loss=prog["loss"],
                       optimizer=prog["optimizer"], validation=val, verbose=False)
     ref = reference_loop(prog, n_iter)
-    if not np.all(np.isfinite(ref["loss"])):
+    if diverges(ref["loss"]):
         return ok(nontrivial=False, labels=labels + ["diverged-skipped"])
     vdata = vprog["data"]
     best, counter, best_idx = float("inf"), 0, 0
